@@ -57,6 +57,8 @@ class ApiObservation:
         self.pools = []         # one dict per executor pool the library created
         self.fault_calls = {}
         self.fault_fired = False
+        self.hung = False       # the call did not return within the limit
+        self.hung_in = []
 
 
 def _state_char(t):
@@ -70,6 +72,17 @@ def _state_char(t):
     return c.upper() if t.daemon else c
 
 
+def _frames_of(thread, names):
+    """names of the functions (out of `names`) on the stack of a live thread"""
+    fr = sys._current_frames().get(thread.ident)
+    out = []
+    while fr is not None:
+        if fr.f_code.co_name in names:
+            out.append(fr.f_code.co_name)
+        fr = fr.f_back
+    return out
+
+
 def run_api_case(build, ptype, kind, at):
     """One real call.  Returns ApiObservation.  Leaves no thread behind (leaks are cancelled
     after having been recorded)."""
@@ -80,6 +93,7 @@ def run_api_case(build, ptype, kind, at):
     base = U.PROGRESS_DICT[eff]
     main = threading.current_thread()
     timers = []
+    instances = []
 
     class CountingTimer(threading.Timer):
         def __init__(self, interval, function, *a, **k):
@@ -105,6 +119,7 @@ def run_api_case(build, ptype, kind, at):
                          "line": fr.f_lineno, "calls": "", "exceptional_exit": False}
             self._c19["title"] = (getattr(self, "title", None) or "").strip("-> :")
             obs.objects.append(self._c19)
+            instances.append(self)
 
         def enter(self):
             if threading.current_thread() is main:
@@ -161,13 +176,43 @@ def run_api_case(build, ptype, kind, at):
                       # its traceback keeps the frames of the failed call alive, so everything
                       # below is observed "when control returns to the caller", not after
                       # the frames were collected
+    box = {}
+
+    def target():
+        try:
+            call(ptype)
+        except BaseException as e:      # noqa: the injected fault or what it caused
+            box["exc"] = e
+
+    # the call runs in a helper thread (it is "the calling thread" of the model) so that a
+    # call that never returns -- a deadlock in the progress object -- ends the case as a
+    # hang instead of hanging the check
+    runner_thread = threading.Thread(target=target, name="c19-caller", daemon=True)
+    main = runner_thread
+    before.add(runner_thread)
+    limit = getattr(build, "limit", 60.0)
     try:
         with contextlib.redirect_stdout(buf):
-            try:
-                call(ptype)
-            except BaseException as e:      # noqa: the injected fault or what it caused
-                obs.raised = type(e).__name__
-                kept = e
+            runner_thread.start()
+            runner_thread.join(limit)
+            if runner_thread.is_alive():
+                obs.hung = True
+                obs.hung_in = sorted(set(
+                    "%s.%s" % (type(i).__mro__[1].__name__, fr)
+                    for i in instances
+                    for fr in _frames_of(runner_thread, ("enter", "update", "exit"))))
+                # try to get the thread out again: release the bar's lock if it is held
+                for i in instances:
+                    lk = getattr(i, "_lock", None)
+                    try:
+                        if lk is not None and lk.locked():
+                            lk.release()
+                    except Exception:
+                        pass
+                runner_thread.join(10.0)
+            if "exc" in box:
+                obs.raised = type(box["exc"]).__name__
+                kept = box.pop("exc")
     finally:
         U.PROGRESS_DICT[eff] = base
         U.Timer = saved_timer
@@ -249,7 +294,10 @@ def api_cases(tier, rng):
     nbar = 2 if tier == "quick" else 12
     nother = 1 if tier == "quick" else 4
     for name, (funcs, build) in runners.items():
+        t0 = time.time()
         totals = run_api_case(build, "silent", None, None).fault_calls
+        # a call of this runner that takes this much longer than its failure-free run hangs
+        build.limit = 8.0 + 20.0 * (time.time() - t0)
         light = getattr(build, "light", False) and tier == "quick"
         for pt in (("silent",) if light else PTYPES):
             cases.append((name, None, None, pt))
@@ -320,6 +368,10 @@ def correspondence_api(res, tier, rng, table, spawns=()):
         eff = U.PROGRESS_TYPE if ptype is None else ptype
         res.count("api:%s" % eff)
         res.count("fault:%s" % (kind or "none"))
+        if obs.hung:
+            res.disagree("the call did not return (the model says it always does)",
+                         {"case": [name, kind, at, ptype], "stuck_in": obs.hung_in})
+            continue
         if obs.extra_threads:
             res.disagree("a thread the model does not know is alive after the call",
                          {"case": [name, kind, at, ptype], "threads": obs.extra_threads})
@@ -455,6 +507,27 @@ class Stepper:
             def cancel(self):
                 self.cancelled = True
 
+            def over(self):
+                """the timer thread has ended: cancelled in time, or its callback returned"""
+                return (self.cancelled and not self.fired) or self.done
+
+            def is_alive(self):
+                return self.started and not self.over()
+
+            def join(self, timeout=None):
+                if not self.started:
+                    raise RuntimeError("cannot join thread before it is started")
+                w = threading.current_thread()
+                if timeout is not None or not isinstance(w, Worker):
+                    return
+                while not self.over() and not stepper.free:
+                    # the caller waits; the scheduler sees it as blocked on this timer
+                    w.join_target = self
+                    w.at = "join"
+                    w.sig.release()
+                    w.go.acquire()
+                w.join_target = None
+
         self.saved_timer = U.Timer
         U.Timer = FakeTimer
         self.buf = io.StringIO()
@@ -497,7 +570,17 @@ class Stepper:
         return self.todo
 
     def blocked(self, w):
+        if w.at == "join":
+            t = getattr(w, "join_target", None)
+            return t is not None and not t.over()
         return w.at == "acquire" and self.lock_held()
+
+    def deadlocked(self):
+        """some thread has not finished, yet nothing at all can move (no thread can execute
+        its next statement and no timer can fire): they wait for each other for ever"""
+        waiting = [("M" if k == "M" else "T%s" % k) + ":" + str(w.at)
+                   for k, w in self.workers.items() if not w.finished]
+        return waiting if (waiting and not self.enabled()) else []
 
     def enabled(self):
         en = []
@@ -665,7 +748,7 @@ def run_schedule(ops, nupd, guarded, schedule, skip_disabled=False, drain=False,
                 log.append("%s:%s" % (en[0], st.snapshot()))
         finished = (st.main_worker() is None and not st.effective_todo()
                     and not any(not w.finished for w in st.workers.values()))
-        return " | ".join(log), done, st.verdict(), finished
+        return " | ".join(log), done, st.verdict(), finished, st.deadlocked()
     finally:
         st.close()
 
@@ -694,7 +777,7 @@ def explore_real(ops, nupd, guarded, maxfire, cap, rng=None, walks=0, budget=Non
                     log.append("%s:%s" % (a, st.snapshot()))
                 fin = (st.main_worker() is None and not st.effective_todo()
                        and not any(not w.finished for w in st.workers.values()))
-                out.append((sched, " | ".join(log), st.verdict(), fin))
+                out.append((sched, " | ".join(log), st.verdict(), fin, st.deadlocked()))
             finally:
                 st.close()
         return out, True
@@ -723,7 +806,7 @@ def explore_real(ops, nupd, guarded, maxfire, cap, rng=None, walks=0, budget=Non
                 depth += 1
             fin = (st.main_worker() is None and not st.effective_todo()
                    and not any(not w.finished for w in st.workers.values()))
-            out.append((sched, " | ".join(log), st.verdict(), fin))
+            out.append((sched, " | ".join(log), st.verdict(), fin, st.deadlocked()))
         finally:
             st.close()
         del stack[depth:]
@@ -749,16 +832,20 @@ def correspondence_schedules(res, tier, rng, ops):
     for (nupd, maxfire, cap, walks) in plans:
         for guarded in ((True, False) if nupd == 1 and maxfire == 1 else (True,)):
             runs, complete = explore_real(ops, nupd, guarded, maxfire, cap, rng, walks,
-                                          budget=30.0 if tier == "quick" else 300.0)
+                                          budget=20.0 if tier == "quick" else 300.0)
             res.count("schedules:nupd=%d,fire<=%d,%s" % (nupd, maxfire,
                       "random" if walks else "dfs"), len(runs))
-            for (sched, log, verdict, fin) in runs:
+            for (sched, log, verdict, fin, _dead) in runs:
                 lines.append("replay bar %d %d %s" % (int(guarded), nupd, " ".join(sched)))
                 expect.append(log)
                 meta.append({"kind": "schedule", "nupd": nupd, "guarded": guarded,
                              "schedule": sched, "pending_after": verdict, "finished": fin})
             if not walks and complete:
                 leaks = sum(1 for r in runs if r[3] and r[2])
+                for r in runs:
+                    if r[4]:
+                        res.disagree("the real ProgressBar deadlocks under a schedule",
+                                     {"schedule": r[0], "waiting": r[4]})
                 lines.append("explore bar %d %d %d %d" % (int(guarded), nupd, maxfire, 10 ** 6))
                 expect.append("n=%d leaks=%d" % (len(runs), leaks))
                 meta.append({"kind": "count", "nupd": nupd, "maxfire": maxfire,
@@ -791,6 +878,8 @@ def check_api_payload(p):
         return None
     obs = run_api_case(runners[p["runner"]][1], p.get("progress_type"), p.get("fault"),
                        p.get("at"))
+    if obs.hung:
+        return {"call_did_not_return": True, "stuck_in": obs.hung_in}
     if obs.alive_names:
         return {"alive_threads_after_call": obs.alive_names, "raised": obs.raised}
     if obs.fault_fired and obs.raised is None:
@@ -802,8 +891,10 @@ def check_race_payload(p, ops):
     """replay a recorded schedule (disabled actions skipped, then drained without firing)"""
     if p.get("gating") == "source":
         ops = real_ops_from_source()
-    log, done, verdict, fin = run_schedule(ops, p.get("nupd", 1), p.get("guarded", True),
-                                           p["schedule"], skip_disabled=True, drain=True)
+    log, done, verdict, fin, dead = run_schedule(ops, p.get("nupd", 1), p.get("guarded", True),
+                                                 p["schedule"], skip_disabled=True, drain=True)
+    if dead:
+        return {"threads_waiting_for_ever": dead, "executed": done}
     if fin and verdict:
         return {"pending_timers_after_exit": verdict, "executed": done}
     return None
@@ -888,16 +979,35 @@ def run_progress_direct(key, max_value, title, fail_at):
     buf = io.StringIO()
     kept = None
     before = set(threading.enumerate())
+    box = {}
+
+    def target():
+        try:
+            with Counted(max_value, title) as bar:
+                box["bar"] = bar
+                for k in range(2):
+                    if fail_at == k:
+                        raise RuntimeError("failure inside the progress block")
+                    bar.update(k)
+        except Exception as e:      # noqa
+            box["exc"] = e
+    th = threading.Thread(target=target, name="c19-direct", daemon=True)
+    before.add(th)
+    hung = False
     try:
         with contextlib.redirect_stdout(buf):
-            try:
-                with Counted(max_value, title) as bar:
-                    for k in range(2):
-                        if fail_at == k:
-                            raise RuntimeError("failure inside the progress block")
-                        bar.update(k)
-            except Exception as e:      # noqa
-                kept = e
+            th.start()
+            th.join(5.0)
+            if th.is_alive():           # watchdog: the block was never left
+                hung = True
+                lk = getattr(box.get("bar"), "_lock", None)
+                try:
+                    if lk is not None and lk.locked():
+                        lk.release()
+                except Exception:
+                    pass
+                th.join(10.0)
+            kept = box.pop("exc", None)
     finally:
         U.Timer = saved
     for t in timers:
@@ -905,7 +1015,7 @@ def run_progress_direct(key, max_value, title, fail_at):
             t.join(60.0)
     alive = [t for t in threading.enumerate() if t not in before and t.is_alive()]
     text = buf.getvalue()
-    r = {"exit_calls": len(exits), "alive_threads": len(alive),
+    r = {"hung": hung, "exit_calls": len(exits), "alive_threads": len(alive),
          "raised": type(kept).__name__ if kept is not None else None,
          "stdout_ends_with_newline": (not text) or text.endswith("\n")}
     kept = None
@@ -951,6 +1061,16 @@ def search(res, rng=None):
         before = set(threading.enumerate())
         obs = run_api_case(runners[name][1], ptype, kind, at)
         eff = U.PROGRESS_TYPE if ptype is None else ptype
+        if obs.hung:
+            res.fail("hang:%s:%s" % (name, eff),
+                     {"type": "api", "runner": name, "fault": kind, "at": at,
+                      "progress_type": ptype, "stuck_in": obs.hung_in,
+                      "progress_calls": [o["calls"] for o in obs.objects],
+                      "how": "oq.c19_runners()[%r]: fault %r at invocation %r, "
+                             "progress_type=%r: the call neither returned nor raised within "
+                             "%.0f s (its failure-free run takes a fraction of that)"
+                             % (name, kind, at, ptype, getattr(runners[name][1], "limit", 60.0))})
+            continue
         if obs.fault_fired and obs.raised is None:
             res.fail("exception-swallowed:%s:%s" % (name, eff),
                      {"type": "api", "runner": name, "fault": kind, "at": at,
@@ -984,8 +1104,20 @@ def search(res, rng=None):
                       "how": "oq.c19_runners()[%r]: arm fault %r at invocation %r, call with "
                              "progress_type=%r, then threading.enumerate()" % (name, kind, at, ptype)})
     # the progress classes themselves, with the argument kinds the call sites pass
+    hung_kinds = set()
     for (key, vname, v, title, fail_at) in progress_direct_cases():
+        if (key, vname) in hung_kinds:
+            continue                    # one hang per argument kind is enough (each costs 5 s)
         r = run_progress_direct(key, v, title, fail_at)
+        if r["hung"]:
+            hung_kinds.add((key, vname))
+        if r["hung"]:
+            res.fail("hang:get_progress:%s:max_value=%s" % (key, vname),
+                     dict(r, type="direct", progress_type=key, max_value=repr(v), title=title,
+                          fail_at=fail_at,
+                          how="with oqupy.util.get_progress(%r)(%r, %r) as bar: update(0), "
+                              "update(1): the block was not left within 5 s" % (key, v, title)))
+            continue
         if fail_at is not None and r["raised"] is None:
             res.fail("exception-swallowed:get_progress:%s" % key,
                      dict(r, type="direct", progress_type=key, max_value=repr(v), title=title,
@@ -1010,7 +1142,18 @@ def search(res, rng=None):
             if nupd >= 2 and res.failing:
                 break       # the deeper exploration only when nothing failed so far
             runs, _c = explore_real(ops, nupd, True, maxfire, cap, budget=60.0)
-            for (sched, log, verdict, fin) in runs:
+            for (sched, log, verdict, fin, dead) in runs:
+                if dead:
+                    res.fail("deadlock:ProgressBar exit() vs timer callback",
+                             {"type": "race", "nupd": nupd, "guarded": True, "schedule": sched,
+                              "gating": "source", "threads_waiting_for_ever": dead,
+                              "final": log.split(" | ")[-1],
+                              "how": "fake Timer at oqupy.util.Timer; threads gated at every "
+                                     "statement of ProgressBar.enter/update/exit; after this "
+                                     "schedule no thread can move and no timer can fire, yet "
+                                     "the listed threads have not finished: the call never "
+                                     "returns"})
+                    break
                 if fin and verdict:
                     res.fail("race:ProgressBar exit() vs timer callback",
                              {"type": "race", "nupd": nupd, "guarded": True, "schedule": sched,
